@@ -338,6 +338,9 @@ def index_shape(interp: Any, t: TensorV, iv: V, st: State, node: ast.AST | None)
             la = src_l[ax]
             if i is not None and la is not None and len(la) == 1:
                 tags.append((L.base_label(la[0][0]), i))
+                if hasattr(interp, "selected"):
+                    sz_ = st.norm(size).as_int()
+                    interp.selected.add((L.base_label(la[0][0]), i % sz_ if sz_ else i))
             elif i is not None and sz is not None and t.lay is not None and la is None:
                 pass
             if has_adv:
@@ -549,9 +552,24 @@ def reduce_shape(t: TensorV, dim: V | None, keepdim: V | None, st: State, node: 
     return tuple(d for i, d in enumerate(t.shape) if i not in dims)
 
 
-def reduce_lay(t: TensorV, dim: V | None, keepdim: V | None, st: State) -> list | None:
+def _consume(interp: Any, lay: Any) -> None:
+    if lay is not None and hasattr(interp, "selected"):
+        for l, _ in lay:
+            interp.selected.add((L.base_label(l), "all"))
+
+
+def reduce_lay(t: TensorV, dim: V | None, keepdim: V | None, st: State, interp: Any = None) -> list | None:
     keep = isinstance(keepdim, BoolV) and keepdim.val is True
     ll = lays(t)
+    if interp is not None:
+        if dim is None or isinstance(dim, NoneV):
+            for la_ in ll:
+                _consume(interp, la_)
+        else:
+            for d_ in (seq_items(dim) if not isinstance(dim, IntV) else [dim]) or []:
+                i_ = geti(d_, st)
+                if i_ is not None and ll:
+                    _consume(interp, ll[i_ % len(ll)])
     if dim is None or isinstance(dim, NoneV):
         return [() for _ in ll] if keep else []
     dims_v = seq_items(dim) if not isinstance(dim, IntV) else [dim]
@@ -775,6 +793,8 @@ def tensor_op(interp: Any, op: str, args: list[V], kwargs: dict[str, V], st: Sta
         if i is None or not args:
             return unk("vmap in_dims")
         return VmapV(args[0], i)
+    if op == "Size" and not method and args and seq_items(args[0]) is not None:
+        return TupleV(tuple(seq_items(args[0])))  # type: ignore[arg-type]
     if op in ("get_default_dtype", "device", "finfo", "iinfo", "Size", "Generator", "manual_seed", "no_grad", "is_complex", "is_floating_point") and not method:
         if op in ("is_complex", "is_floating_point"):
             return BoolV(None)
@@ -806,6 +826,12 @@ def tensor_op(interp: Any, op: str, args: list[V], kwargs: dict[str, V], st: Sta
             return rest[pos]
         return None
 
+    if op == "copy_" and rest and isinstance(rest[0], TensorV):
+        if not broadcastable_to(rest[0].shape, t.shape, st):
+            raise ShapeError(f"copy_: a tensor of shape {fmt_shape(st.norm_shape(rest[0].shape))} is copied into one of shape {fmt_shape(st.norm_shape(t.shape))} (not broadcastable for every size)", node)
+        if hasattr(interp, "copies"):
+            interp.copies.append((t, rest[0]))
+        return TensorV(t.shape, t.dtype, rest[0].lay if rest[0].lay is not None and len(rest[0].shape) == len(t.shape) else t.lay)
     if op in ELEMENTWISE:
         return TensorV(t.shape, t.dtype if op in ("clone", "contiguous", "detach", "cpu", "cuda", "to", "type") else "float", t.lay)
     if op in TO_INT:
@@ -835,7 +861,7 @@ def tensor_op(interp: Any, op: str, args: list[V], kwargs: dict[str, V], st: Sta
         if shp is None:
             return unk(f"{op} with symbolic dim")
         dt = "bool" if op in ("any", "all") else ("int" if op in ("argmax", "argmin") else "float")
-        rl = reduce_lay(t, dim, keep, st)
+        rl = reduce_lay(t, dim, keep, st, interp)
         if op in ("max", "min", "median") and dim is not None and not isinstance(dim, NoneV):
             return TupleV((mk(shp, "float", rl), mk(shp, "int", rl)))
         return mk(shp, dt, rl)
@@ -939,6 +965,8 @@ def tensor_op(interp: Any, op: str, args: list[V], kwargs: dict[str, V], st: Sta
         if a > b:
             raise ShapeError(f"flatten: start_dim {a} > end_dim {b}", node)
         ll = lays(t)
+        for la_ in ll[a : b + 1]:
+            _consume(interp, la_)
         seg = ll[a : b + 1]
         merged = None if any(x is None for x in seg) else tuple(at for x in seg for at in x)
         return mk(t.shape[:a] + (prod(t.shape[a : b + 1]),) + t.shape[b + 1 :], t.dtype, ll[:a] + [merged] + ll[b + 1 :], t.val)
@@ -1026,6 +1054,7 @@ def tensor_op(interp: Any, op: str, args: list[V], kwargs: dict[str, V], st: Sta
             return unk("unbind symbolic dim")
         k = axis(i, rank, node, "unbind")
         ll = lays(t)
+        _consume(interp, ll[k])
         rest_l = ll[:k] + ll[k + 1 :]
         elem = mk(t.shape[:k] + t.shape[k + 1 :], t.dtype, rest_l)
         n = st.norm(t.shape[k]).as_int()
@@ -1239,7 +1268,7 @@ def semiring_op(interp: Any, op: str, args: list[V], kwargs: dict[str, V], st: S
             return
         dim = kwargs.get("dim", args[1] if len(args) > 1 else None)
         shp = reduce_shape(t, dim, kwargs.get("keepdim", args[2] if len(args) > 2 else None), st, node, "semiring." + op)
-        yield (mk(shp, "float", reduce_lay(t, dim, kwargs.get("keepdim", args[2] if len(args) > 2 else None), st)) if shp is not None else interp.unk("semiring reduce dim")), st
+        yield (mk(shp, "float", reduce_lay(t, dim, kwargs.get("keepdim", args[2] if len(args) > 2 else None), st, interp)) if shp is not None else interp.unk("semiring reduce dim")), st
     elif op in ("mul", "add"):
         yield broadcast_values(interp, list(args), st, None, node), st
     elif op in ("map_from", "cast"):
@@ -1257,6 +1286,7 @@ def semiring_op(interp: Any, op: str, args: list[V], kwargs: dict[str, V], st: S
 
 
 CATEGORY_LAYOUT: dict[Any, Any] = {}
+EVENT_SHAPE: dict[str, tuple] = {}  # distributions with an event axis (Dirichlet): kind -> event shape
 
 
 def _remember_cat(dv: DistV, lay: Any) -> DistV:
@@ -1303,7 +1333,9 @@ def make_dist(interp: Any, kind: str, args: list[V], kwargs: dict[str, V], st: S
         s = shp(args[0] if args else kwargs.get("concentration"))
         if s is None or not s:
             return interp.unk("Dirichlet")
-        return DistV("dirichlet:" + repr(s[-1]), s[:-1])
+        key = f"dirichlet@{len(EVENT_SHAPE)}"
+        EVENT_SHAPE[key] = (st.norm(s[-1]),)
+        return DistV(key, s[:-1])
     return interp.unk("distribution " + kind)
 
 
@@ -1321,8 +1353,11 @@ def dist_op(interp: Any, d: DistV, op: str, args: list[V], kwargs: dict[str, V],
         ds = [getd(x, st) for x in items]
         if any(x is None for x in ds):
             return interp.unk("sample_shape symbolic")
-        ev: tuple[Dim, ...] = ()
+        ev: tuple[Dim, ...] = EVENT_SHAPE.get(d.kind, ())
         shape_ = tuple(ds) + d.batch + ev  # type: ignore[operator]
+        if ev:
+            lay_ = L.fresh(st.norm_shape(tuple(ds) + d.batch)) + ((("simplex", ev[0]),),)  # type: ignore[arg-type]
+            return TensorV(shape_, "float", lay_)
         if d.kind.startswith("categorical"):
             return TensorV(shape_, "int", L.fresh(st.norm_shape(shape_)), CATEGORY_LAYOUT.get(d.kind))
         return TensorV(shape_, "float")
